@@ -19,6 +19,7 @@ LEVEL_TEXT = ("per sampled authentic file the fault space named by the property 
 LEVEL_NOTE = ("oracle: raise, or content equal to the original (comments + components; session key when at least one "
               "component binds it); auth-block list not compared; trusts RefDir only for naming regions")
 RUNS = {"quick": 1600, "thorough": 480}
+RUN_WALL_CAP = 1800   # a thorough run enumerates every fault of one file
 RULE = ("per run one authentic BF3/BEC2 file (seeded shapes of C01/C02) and a list of single faults, "
         "each applied alone: writer crash at write call k keeping n bytes (simulated, real writer), "
         "every/sampled text prefix, binary prefix, byte replacement (8 bit flips, 00, FF, +1) at "
